@@ -52,6 +52,9 @@ func main() {
 		os.Exit(2)
 	}
 	id := os.Args[1]
+	if id == "stress20" {
+		stressMain(os.Args[2:])
+	}
 	fs := flag.NewFlagSet("h", flag.ExitOnError)
 	seed := fs.Int64("seed", 1, "PRNG seed")
 	tier := fs.String("tier", "quick", "quick or thorough")
